@@ -52,7 +52,7 @@ ASSUMPTIONS = [
 ]
 REAL = ["Task._call / distribute_calls", "ConcurrentInvocation (sync retry loop)", "DistributedInvocation.run + set_invocation_retry", "app.direct_task wrappers", "ThreadRunner", "both stacks"]
 STUBBED = ["clock", "thread scheduling", "uuid4"]
-PROBES = ["retry_exhausted", "retry_then_success", "non_retriable", "group", "direct", "direct_parallel", "nested"]
+PROBES = ["subtask_of_other_task", "retry_exhausted", "retry_then_success", "non_retriable", "group", "direct", "direct_parallel", "nested"]
 
 
 def plan(tier: str) -> list[dict]:
@@ -111,6 +111,7 @@ def _call(app: Any, spec: dict, flavour: str, opts: dict, get: Any) -> Any:
     try:
         if flavour == "plain":
             t = _apps.register(app, simtasks.prog, **opts)
+            _apps.register(app, simtasks.prog2, **opts)
             return ("ok", get(t(spec)))
         w = _wrappers(app, opts)
         if flavour == "direct":
@@ -130,6 +131,7 @@ def _run_dist(seed: int, stack: str, spec: dict, flavour: str, opts: dict) -> tu
         for app in d.w.distinct_apps():
             if flavour == "plain":
                 _apps.register(app, simtasks.prog, **opts)
+                _apps.register(app, simtasks.prog2, **opts)
             else:
                 _wrappers(app, opts)
 
@@ -186,7 +188,7 @@ def run(seed: int, params: dict, replay: dict | None = None) -> dict:
         for n in gen.nodes(spec):
             n.pop("fail_after_kids", None)
     else:
-        spec = gen.gen_prog(rng, names, depth=2, p_fail=0.3, excs=excs)
+        spec = gen.gen_prog(rng, names, depth=2, p_fail=0.3, excs=excs, two_tasks=True)
     opts = _options(max_retries, retry_for)
     retriable = _retriable_kinds(retry_for)
     # reference
@@ -239,6 +241,8 @@ def run(seed: int, params: dict, replay: dict | None = None) -> dict:
         stats["probe.direct_parallel"] = 1
     if len(nodes) > 1:
         stats["probe.nested"] = 1
+    if any(n.get("t") == 2 for n in nodes[1:]) and flavour == "plain":
+        stats["probe.subtask_of_other_task"] = 1
     if not inconclusive:
         desc = f"program {spec} flavour={flavour} max_retries={max_retries} retry_for={retry_for}"
         names_all = sorted(set(lazy) | set(eager))
